@@ -106,9 +106,9 @@ Definition record_header_chunks (num words : Z) : chunks := [i32_be num; i32_be 
 (** File header. *)
 Record header := mkhdr { h_len : Z; h_type : shape_type; h_version : Z; h_box : bbox }.
 
-(** `Header::default()`: `BBoxZ::default()` is made of `PointZ::default()`, whose m is NO_DATA. *)
+(** `Header::default()`: all ranges zero (after the fix F14; before it the M range was NO_DATA). *)
 Definition header_default : header :=
-  mkhdr 50 TNull 1000 (mkbox (mkpt 0 0 0 F_NO_DATA) (mkpt 0 0 0 F_NO_DATA)).
+  mkhdr 50 TNull 1000 (mkbox (mkpt 0 0 0 0) (mkpt 0 0 0 0)).
 
 (** `Header::write_to` (src/header.rs:75-95). *)
 Definition header_chunks (h : header) : chunks :=
